@@ -72,6 +72,41 @@ Section Scan.
       + destruct j as [|j]; [lia|].
         apply (IH _ _ H5 i j); [lia|exact Ha|exact Hb].
   Qed.
+
+  (* the same with an invariant available to the step lemma *)
+  Lemma chain_rel_inv (I : F -> Prop) (R : F -> F -> Prop) :
+    (forall x, R x x) -> (forall x y z, R x y -> R y z -> R x z) ->
+    (forall k p f, chk k p f = None -> I p -> I f) ->
+    (forall k p f, chk k p f = None -> I p -> R p f) ->
+    forall fs k p, chain k p fs -> I p ->
+    forall i j, (i <= j)%nat -> forall a b,
+      nth_error (p :: fs) i = Some a -> nth_error (p :: fs) j = Some b -> R a b.
+  Proof.
+    intros Hr Ht Hi Hs. induction fs as [|f r IH]; intros k p H Hp i j Hij a b Ha Hb.
+    - destruct i as [|i]; [|destruct i; discriminate].
+      destruct j as [|j]; [|destruct j; discriminate].
+      cbn in Ha, Hb. injection Ha as <-. injection Hb as <-. apply Hr.
+    - inversion H as [|? ? ? ? Hc Hch]; subst.
+      destruct i as [|i].
+      + cbn in Ha. injection Ha as <-.
+        destruct j as [|j]; [cbn in Hb; injection Hb as <-; apply Hr|].
+        apply Ht with f; [eauto|].
+        apply (IH _ _ Hch (Hi _ _ _ Hc Hp) 0%nat j); [lia|reflexivity|exact Hb].
+      + destruct j as [|j]; [lia|].
+        apply (IH _ _ Hch (Hi _ _ _ Hc Hp) i j); [lia|exact Ha|exact Hb].
+  Qed.
+
+  (* consecutive frames of an accepted chain *)
+  Lemma chain_consecutive : forall fs k p, chain k p fs ->
+    forall i a b, nth_error (p :: fs) i = Some a -> nth_error (p :: fs) (S i) = Some b ->
+    exists k', chk k' a b = None.
+  Proof.
+    induction fs as [|f r IH]; intros k p H i a b Ha Hb.
+    - destruct i; cbn in Hb; [discriminate|destruct i; discriminate].
+    - inversion H as [|? ? ? ? Hc Hch]; subst. destruct i as [|i].
+      + cbn in Ha, Hb. injection Ha as <-. injection Hb as <-. eauto.
+      + eapply IH; eauto.
+  Qed.
 End Scan.
 
 (* first failing check in a list of (clause, test) pairs *)
